@@ -221,6 +221,7 @@ pub struct GapMonitor {
     pub n_replies: [u64; 4],
     pub n_reply_deadlines: u64,
     pub n_liveness_checks: u64,
+    pub n_listed: u64,
 }
 
 impl GapMonitor {
@@ -266,6 +267,7 @@ impl GapMonitor {
             n_replies: [0; 4],
             n_reply_deadlines: 0,
             n_liveness_checks: 0,
+            n_listed: 0,
         }
     }
 
@@ -326,6 +328,41 @@ impl Monitor for GapMonitor {
         if p.pre.in_ring {
             self.st[i].witness.ever_in_ring = true;
         }
+        // A station enters the list of active stations only by being heard: as the sender of a
+        // token, or as the source of a 'master' status reply to this station (GAP poll).
+        if p.pre.online && p.post.online {
+            let new = p.post.las & !p.pre.las & !(1u128 << ts);
+            if new != 0 {
+                for x in 0..127u8 {
+                    if new & (1u128 << x) == 0 {
+                        continue;
+                    }
+                    let heard = p.rx.iter().any(|r| match &r.verdict {
+                        RxVerdict::Consumed { frame: Frame::Token { sa, .. }, .. } => *sa == x,
+                        RxVerdict::Consumed { frame: Frame::Data { sa, da, fc, .. }, .. } => {
+                            *sa == x && *da == ts && matches!(wire::fc_decode(*fc), Fc::Response { state, status: 0 } if state >= 2)
+                        }
+                        _ => false,
+                    });
+                    self.n_listed += 1;
+                    if !heard {
+                        w.violate(
+                            self.prop,
+                            "gap.discovery",
+                            "station-listed-without-being-heard",
+                            Some(ts),
+                            format!(
+                                "#{ts} entered #{x} into its list of active stations (NS {} -> {}) in a poll in which it received neither a token sent by #{x} nor a 'master' status reply from #{x} ({:?})",
+                                p.pre.ns,
+                                p.post.ns,
+                                p.rx.iter().map(|r| format!("{:?}", r.verdict)).collect::<Vec<_>>()
+                            ),
+                        );
+                        return;
+                    }
+                }
+            }
+        }
         // deadline for answering a status request
         if let Some((by, from)) = self.st[i].must_reply_by {
             if p.t > by {
@@ -341,7 +378,7 @@ impl Monitor for GapMonitor {
             }
         }
         for r in p.rx {
-            let RxVerdict::Consumed { frame, src, last } = &r.verdict else {
+            let RxVerdict::Consumed { frame, src, last, .. } = &r.verdict else {
                 self.st[i].asked_by = None;
                 Self::irregular(&mut self.st[i]);
                 continue;
@@ -777,5 +814,6 @@ impl Monitor for GapMonitor {
         s.add("probe.status_reply_in_ring", self.n_replies[3]);
         s.add("status.answer_deadlines", self.n_reply_deadlines);
         s.add("gap.coverage_checks", self.n_liveness_checks);
+        s.add("gap.stations_listed_with_cause", self.n_listed);
     }
 }
